@@ -27,15 +27,26 @@ PG_W(g, i)   == RHalf(RAdd(IF i > 0 THEN PG_Dx(g, i - 1) ELSE "0",
                            IF i < Len(g) - 1 THEN PG_Dx(g, i) ELSE "0"))
 PG_Weights(g) == [v \in 1..Len(g) |-> PG_W(g, v - 1)]
 
-PhiAt(phi, ix)  == phi.d[Flat(phi.sh, ix)]
-PhiMk(sh, D(_)) == [sh |-> sh, d |-> [k \in 1..Size(sh) |-> D(Unflat(sh, k))]]
+\* index arithmetic with the strides computed once per array
+PStrides(sh)   == [j \in 1..Len(sh) |-> Stride(sh, j)]
+PUnflat(sh, st, k) == [j \in 1..Len(sh) |-> ((k - 1) \div st[j]) % sh[j]]
+PFlat(sh, ix)  == LET RECURSIVE go(_, _)
+                      go(j, acc) == IF j > Len(sh) THEN acc + 1 ELSE go(j + 1, acc * sh[j] + ix[j])
+                  IN go(1, 0)
+PhiAt(phi, ix)  == phi.d[PFlat(phi.sh, ix)]
+PhiMk(sh, D(_)) == LET st == PStrides(sh) IN [sh |-> sh, d |-> [k \in 1..Size(sh) |-> D(PUnflat(sh, st, k))]]
 PhiWellFormed(phi, gs) == /\ Len(phi.d) = Size(phi.sh) /\ Len(gs) = Len(phi.sh)
                           /\ \A k \in 1..Len(gs) : Len(gs[k]) = phi.sh[k] /\ PG_IsGrid(gs[k])
 
-\* integrate axis a (1-based) of phi out, with arbitrary per-point weights wt (1-based sequence)
+\* integrate axis a (1-based) of phi out, with arbitrary per-point weights wt (1-based sequence):
+\* result[ix] = sum_v wt[v] * phi[InsertAt(ix, a, v - 1)]
 PG_WSum(phi, wt, a) ==
-    PhiMk(RemoveAt(phi.sh, a),
-          LAMBDA ix : RSum([v \in 1..phi.sh[a] |-> RMul(wt[v], PhiAt(phi, InsertAt(ix, a, v - 1)))]))
+    LET n     == phi.sh[a]
+        inner == Stride(phi.sh, a)                       \* flat distance between neighbours on axis a
+        sh2   == RemoveAt(phi.sh, a)
+        base(k2) == ((k2 - 1) \div inner) * n * inner + ((k2 - 1) % inner) + 1
+    IN  [sh |-> sh2,
+         d  |-> [k2 \in 1..Size(sh2) |-> RSum([v \in 1..n |-> RMul(wt[v], phi.d[base(k2) + (v - 1) * inner])])]]
 \* trapezoid integral over the population on axis a, which lives on grid g   (Numerics.trapz)
 PG_Trapz(phi, g, a)   == PG_WSum(phi, PG_Weights(g), a)
 \* first moment  int x phi dx  along axis a
@@ -84,13 +95,14 @@ MixFreq(props, gs, ix) == RSum([k \in 1..Len(props) |-> RMul(props[k], gs[k][ix[
 \* existing population, summing to 1)
 PhiAdmixNew(phi, gs, props, gnew) ==
     LET n   == Len(gnew)
+        st  == PStrides(phi.sh)
         dep == [j \in 1..Size(phi.sh) |->
-                  IF phi.d[j] = "0" THEN NoDeposit ELSE PhiDeposit(MixFreq(props, gs, Unflat(phi.sh, j)), gnew)]
+                  IF phi.d[j] = "0" THEN NoDeposit ELSE PhiDeposit(MixFreq(props, gs, PUnflat(phi.sh, st, j)), gnew)]
     IN  [sh |-> Append(phi.sh, n),
          d  |-> [k2 \in 1..(Size(phi.sh) * n) |->
                    LET j == ((k2 - 1) \div n) + 1
                        k == (k2 - 1) % n
-                   IN  RMul(phi.d[j], DepositAt(dep[j], k))]]
+                   IN  IF phi.d[j] = "0" THEN "0" ELSE RMul(phi.d[j], DepositAt(dep[j], k))]]
 
 \* N-D split: the new population is a copy of population k
 PhiSplit(phi, gs, k, gnew) == PhiAdmixNew(phi, gs, UnitVec(Len(gs), k), gnew)
@@ -119,8 +131,10 @@ IsPerm(perm, P) == Len(perm) = P /\ \A o \in 1..P : \E j \in 1..P : perm[j] = o
 \* perm[j] = the old axis (1-based) that becomes new axis j
 PhiReorder(phi, perm) ==
     LET sh2 == [j \in 1..Len(perm) |-> phi.sh[perm[j]]]
-        old(ix) == [o \in 1..Len(perm) |-> ix[CHOOSE j \in 1..Len(perm) : perm[j] = o]]
-    IN  PhiMk(sh2, LAMBDA ix : PhiAt(phi, old(ix)))
+        st2 == PStrides(sh2)
+        sto == PStrides(phi.sh)
+        old(k) == LET ix == PUnflat(sh2, st2, k) IN 1 + ISum([j \in 1..Len(perm) |-> ix[j] * sto[perm[j]]])
+    IN  [sh |-> sh2, d |-> [k \in 1..Size(sh2) |-> phi.d[old(k)]]]
 ReorderSeq(q, perm) == [j \in 1..Len(perm) |-> q[perm[j]]]
 \* the permutation that moves the last of P axes to position a
 MoveLastTo(P, a) == [j \in 1..P |-> IF j < a THEN j ELSE IF j = a THEN P ELSE j - 1]
